@@ -271,3 +271,125 @@ def mon_perm(h, obs):
                                    or ("specific" in perms and lst is not None and regulator in lst)):
             hits.append(Hit("C17/gate-admits-without-reason", f"{op} -> {o}"))
     return hits
+
+
+# ------------------------------------------------------------------------------------------ C08: totality
+
+BAD_IDS = ["~", "a", "a:b:c:d", "::", ":c1:s1", "1356::s1", "1356:c1:", "x" * 300, "1356:c1:s1-extra", "1356:c1:s\\_1", "9999:c1:s1",
+           "1356:c9:s9", "c1:s1:", "-", "1356:c1:s1:", "ü:ü:ü", "1356:C1:S1", "0:0:0"]
+HEX_JUNK = ["empty", "00", "ff", "0a", "0a00", "0aff", "08", "0801", "1200", "ffffffffffffffffffff", "0a0548656c6c6f", "7b7d", "12ff01", "0a" + "80" * 10 + "01"]
+
+
+def bad_args(r, ins):
+    """an argument vector that does not fit the signature: wrong count, wrong types, unknown type tags, unparsable numbers"""
+    k = r.random()
+    good = []
+    for t in ins:
+        if t.startswith("..."):
+            continue
+        a = typed_arg(r, t)
+        good.append(a if a is not None else "s:x")
+    if k < 0.2:
+        return good[:-1] if good else ["s:extra"]
+    if k < 0.4:
+        return good + [r.choice(["s:extra", "u:1", "b:1", "x:00"])]
+    if k < 0.55:
+        return []
+    if k < 0.8:
+        out = list(good)
+        if out:
+            i = r.randrange(len(out))
+            out[i] = r.choice(["u:abc", "i:99999999999", "i:x", "b:1", "u:1", "s:1", "x:ff", "f:nan", "f:abc", "raw:99:00", "raw:7:", "raw:3:ffffffffffffffffffff", "raw:0:78"])
+        return out
+    return [r.choice(["raw:99:00", "raw:-1:00", "u:18446744073709551616", "i:-2147483649", "f:1e400"]) for _ in range(r.randint(1, 4))]
+
+
+def gen_c08(rng, n, tier):
+    import random as _r
+    methods = [m for m in load_methods()]
+    hs = []
+    for _ in range(n):
+        r = _r.Random(rng.getrandbits(64))
+        g_audit = r.choice([0, 1])
+        ops = [f"world audit={g_audit} price=1"]
+        tags = {"c08"}
+        nb = r.randint(2, 7)
+        expect_h = 6
+        for _b in range(nb):
+            txs = []
+            for _t in range(r.choice([1, 1, 2, 3, 5])):
+                k = r.random()
+                signer = r.choice(["u0", "u1", "ca1", "ca2", "adm1"])
+                if k < 0.35 and methods:
+                    c, m, ins, declared, out = r.choice(methods)
+                    args = bad_args(r, ins)
+                    if r.random() < 0.1:
+                        m = r.choice(["", "nope", m.lower(), m + "X"]) or "~"
+                    txs.append(f"bvm {signer} {c} {m} " + " ".join(args))
+                    tags.add("mal:bvm-args")
+                elif k < 0.5:
+                    to = r.choice(["interchain", "txmgr", "store", "u1", "nil", "0x0000000000000000000000000000000000000abc"])
+                    txs.append(f"raw {signer} {to} {r.choice(HEX_JUNK + ['nil'])}")
+                    tags.add("mal:raw-payload")
+                elif k < 0.65:
+                    to = r.choice(["interchain", "txmgr", "store", "u1", "0x0000000000000000000000000000000000000abc"])
+                    typ = r.choice([0, 1, 2, 3, 99])
+                    vmt = r.choice([0, 1, 2, 99])
+                    amt = r.choice(["~", "0", "1", "abc", "-1", "1" + "0" * 80])
+                    txs.append(f"rawtd {signer} {to} {typ} {vmt} {amt} {r.choice(HEX_JUNK + ['nil'])}")
+                    tags.add("mal:raw-txdata")
+                elif k < 0.9:
+                    f = r.choice(BAD_IDS + ["c1:s1", "c2:s1"])
+                    t = r.choice(BAD_IDS + ["c1:s1", "c2:s1"])
+                    idx = r.choice([0, 1, 2, 2 ** 63, 2 ** 64 - 1])
+                    typ = r.choice(["req", "ok", "fail", "rb", "4", "7", "100"])
+                    tmo = r.choice([0, 1, -1, 2 ** 63 - 1, -2 ** 63])
+                    grp = r.choice(["-", "-", "c2:s1=1", "c2:s1=1,c2:s1=2", "~=0", "a=18446744073709551615"])
+                    pk = r.choice(["ok", "none", "bad"])
+                    txs.append(f"ibtp {signer} {f} {t} {idx} {typ} {tmo} {grp} {pk}")
+                    tags.add("mal:ibtp")
+                else:
+                    txs.append(f"ibtp ca1 c1:s1 c2:s1 1 req 0 - ok" if r.random() < 0.5 else f"xfer u0 u1 {r.choice(['1', 'abc', '-1'])}")
+            ops.append("block " + " | ".join(txs))
+        ops.append("q height")
+        hs.append(History(ops, tags=tags))
+    return hs
+
+
+def mon_c08(h, obs):
+    hits = []
+    height = None
+    for i, (op, o) in enumerate(zip(h.ops, obs)):
+        if o.startswith("PANIC") or o.startswith("DIED"):
+            hits.append(Hit(f"C08/node-crash/{o.split(' ')[1][:40] if ' ' in o else o}", f"op {i} `{op[:160]}` -> {o[:200]}", detail=op))
+            break
+        ws = op.split()
+        if ws[0] == "world":
+            m = mon_exec.re.match(r"ok h=(\d+)", o)
+            height = int(m.group(1)) if m else None
+        elif ws[0] == "block":
+            m = mon_exec.BLK.match(o)
+            if not m:
+                hits.append(Hit("C08/block-not-committed", f"op {i} `{op[:160]}` -> {o[:200]}", detail=op))
+                break
+            ntx = len([w for w in op.split(" | ")]) if len(ws) > 1 else 0
+            rcs = m.group(2).split() if m.group(2) else []
+            if len(rcs) != ntx:
+                hits.append(Hit("C08/receipt-count", f"block with {ntx} txs has {len(rcs)} receipts: {o[:160]}", detail=op))
+            if any(x == "noreceipt" for x in rcs):
+                hits.append(Hit("C08/missing-receipt", f"{o[:160]}", detail=op))
+            if height is not None and int(m.group(1)) != height + 1:
+                hits.append(Hit("C08/height-not-next", f"expected {height + 1}: {o[:80]}", detail=op))
+            height = int(m.group(1))
+    if len(obs) < len(h.ops) and not hits:
+        hits.append(Hit("C08/node-crash/eof", f"process stopped after {len(obs)} of {len(h.ops)} ops", detail=h.ops[len(obs)] if len(obs) < len(h.ops) else None))
+    return hits
+
+
+def tags_c08(h, obs):
+    t = set()
+    for st in mon_exec.parse_trace(h, obs):
+        if st[0] == "block" and st[1].ok:
+            for rc in st[1].rcs:
+                t.add("rc:" + ("ok" if rc.ok else rc.ret))
+    return t
